@@ -102,8 +102,24 @@ func (s *Server) Port() string {
 }
 
 func (s *Server) listenAndServe(addr string, handler http.Handler, context hap.Context) error {
-	server := http.Server{Addr: addr, Handler: handler}
+	server := http.Server{Addr: addr, Handler: handler, ConnState: connState}
 	return server.Serve(s)
+}
+
+// connState keeps event notifications out of responses: notifications for a connection
+// are written when no request is handled on that connection.
+func connState(c net.Conn, state http.ConnState) {
+	con, ok := c.(*hap.Connection)
+	if !ok {
+		return
+	}
+
+	switch state {
+	case http.StateActive:
+		con.SetResponding(true)
+	case http.StateIdle:
+		con.SetResponding(false)
+	}
 }
 
 func (s *Server) addrString() string {
